@@ -385,3 +385,15 @@ V("pipe-benign-rename-fact", ["C01"], PL, "benign",
   (FAC, "                f0 = F.nodes[fi0][\"expression\"]\n                f1 = F.nodes[fi1][\"expression\"]\n                fisum = graph_insert(F, f0 + f1)", "                lhs = F.nodes[fi0][\"expression\"]\n                rhs = F.nodes[fi1][\"expression\"]\n                fisum = graph_insert(F, lhs + rhs)"))
 V("pipe-benign-guard-local", ["C11", "C01"], PL, "benign",
   (IG, "            if not v._ufl_is_literal_ and self.scopes[(domain, quadrature_rule)].get(v) is None:", "            cached = self.scopes[(domain, quadrature_rule)].get(v)\n            if not v._ufl_is_literal_ and cached is None:"))
+
+
+# ---- open finding C01/C11: shared piecewise scope; a repaired scratch copy is silent -----------------
+ET = "ffcx/ir/elementtables.py"
+V("repair-piecewise-needs-two-points", ["C01", "C11"], ["SCOPE-KEY"], "repair",
+  (ET, "    return all(\n        np.allclose(table[0, :, 0, :], table[0, :, i, :], rtol=rtol, atol=atol)\n        for i in range(1, table.shape[2])\n    )",
+       "    return table.shape[2] > 1 and all(\n        np.allclose(table[0, :, 0, :], table[0, :, i, :], rtol=rtol, atol=atol)\n        for i in range(1, table.shape[2])\n    )"),
+  expect_key="shared-scope-vs-per-rule-classification")
+V("repair-piecewise-scope-per-rule", ["C01", "C11"], ["SCOPE-KEY"], "repair",
+  (IG, 'return self.generate_partition(arraysymbol, F, "piecewise", None, None)',
+       'return self.generate_partition(arraysymbol, F, "piecewise", quadrature_rule, domain)'),
+  expect_key="shared-scope-vs-per-rule-classification")
